@@ -7,4 +7,23 @@ import (
 	"verifharness/internal/c07"
 )
 
-func main() { c07.Driver.Main("C07", os.Args[1:]) }
+func main() {
+	child := false
+	for i, a := range os.Args[1:] {
+		if a == "-child" || a == "--child" {
+			child = true
+		}
+		// the large tiers: fewer, larger case files (every coqc start costs ~0.4 s)
+		if (a == "-tier" || a == "--tier") && i+2 < len(os.Args) && os.Args[i+2] != "quick" {
+			c07.Driver.PerShard = 1000
+		}
+	}
+	if !child {
+		// the operator rigs of the child processes (class "op") live here; removed when the run is over
+		if root, err := os.MkdirTemp("", "c07-rigs-"); err == nil {
+			os.Setenv(c07.RigRootEnv, root)
+			defer os.RemoveAll(root)
+		}
+	}
+	c07.Driver.Main("C07", os.Args[1:])
+}
